@@ -32,7 +32,9 @@ def gen_history(rng, idx, tier):
         oid[0] += 1
         h.ops.append((oid[0], rank, e, code, list(a)))
     keys = [0, 1, 2, 3, 4, 5]
-    ckeys = [0, 1, 2, BIG, BIG + 1, 2 * BIG + 1, 99]       # k, k + 2^20, k + 2*2^20 share a cache slot
+    ckeys = [0, 1, 2, BIG, BIG + 1, 2 * BIG + 1, 99]
+    # contributions to the reducing adapter: zeros and opposite values make cached partials equal to the mapped type's default
+    rval = lambda: rng.choice([0, 0, 5, -5, rng.randrange(1, 100), rng.randrange(1, 100)])       # k, k + 2^20, k + 2*2^20 share a cache slot
     for e in range(1, h.epochs + 1):
         # map / multimap / set / multiset: at most 5 operations per key and epoch (all orders are enumerated)
         for cont, codes in (('M', ['MI', 'MIM', 'MV', 'MVE', 'MIV', 'MRA', 'MRX', 'MRN', 'MRN', 'ME']), ('X', ['XI', 'XI', 'XV', 'XVG', 'XVE', 'XE']),
@@ -69,9 +71,9 @@ def gen_history(rng, idx, tier):
             r = rng.randrange(n)
             x = rng.random()
             if x < 0.25:
-                add(r, e, 'RH', rng.randrange(n), k, rng.randrange(1, 100))
+                add(r, e, 'RH', rng.randrange(n), k, rval())
             elif x < 0.8:
-                add(r, e, 'RA', k, rng.randrange(1, 100))
+                add(r, e, 'RA', k, rval())
             else:
                 add(r, e, 'RB', rng.randrange(37), rng.randrange(1, 100))
         for _ in range(rng.choice([0, 3, 10])):
